@@ -314,6 +314,16 @@ func checkC12(c *Ctx) {
 				}
 				if calleeID(call) == hopID("snp", "", "StateSetBytes") && len(call.Call.Args) == 2 && paramIndex(rm, p.Resolve(call.Call.Args[1], i)) == 1 {
 					absorbed = true
+					wholeKey = true
+				}
+				if calleeID(call) == hopID("snp", "", "StateSetByte") && len(call.Call.Args) == 3 {
+					if lc, ok := p.Resolve(call.Call.Args[2], i).(*ssa.Call); ok {
+						if b, isB := lc.Call.Value.(*ssa.Builtin); isB && b.Name() == "len" && paramIndex(rm, p.Resolve(lc.Call.Args[0], i)) == 1 {
+							if n, isC := constInt(p.Resolve(call.Call.Args[1], i)); isC && n == 1 {
+								padAtLen = true
+							}
+						}
+					}
 				}
 				if g := staticCallee(&call.Call); g != nil && absorbed && g.Pkg == rm.Pkg && len(g.Params) == 1 && !permuted {
 					// the permutation applied to the state the key was written into
